@@ -467,6 +467,32 @@ func fineSubWhileChannelDeleting(seed uint64) []lib.Case {
 	return []lib.Case{cr.finish("sub-vs-channel-delete#"+strconv.FormatUint(seed, 10), seed, nil, nil)}
 }
 
+// ---- the replacement daemon is started while the old one is still in Exit (an impatient
+// supervisor): the data-path lock must refuse it until the old one has flushed and closed
+// everything; a replacement that gets in earlier never sees what is flushed after it opened
+// the queues ----
+func fineStartWhileExiting(seed uint64) []lib.Case {
+	cr := newFineCase(seed, 10)
+	cr.opCreateTopic(1)
+	cr.opCreateChan(1, 1)
+	k1 := cr.opConnect(false, false)
+	cr.opSub(k1, 1, 1)
+	cr.opRdy(k1, 1)
+	cr.opPub(1, 3, false, false)                                     // one in flight, two in the memory queue
+	atClose, goClose := nsqd.VerifArmPark("persist:after-rename", 1) // Exit: metadata written, topics not yet closed
+	cr.opRestartWith(func() {
+		ok := waitReached(atClose, 3*time.Second)
+		cr.tag(fmt.Sprintf("exit-parked-before-closing-topics=%v", ok))
+		d2, err := nsqdlib.StartLikeMain(cr.opts)
+		cr.tag(fmt.Sprintf("early-start-refused=%v", err != nil))
+		if err == nil {
+			cr.pre = d2
+		}
+		goClose()
+	})
+	return []lib.Case{cr.finish("start-during-exit#"+strconv.FormatUint(seed, 10), seed, nil, nil)}
+}
+
 // ---- graceful Exit while a TOUCH is between its in-flight pop and its push back: the
 // message is in no set when the channel's backlog is written ----
 func fineExitWhileTouching(seed uint64) []lib.Case {
@@ -1005,6 +1031,7 @@ var fineScenarios = map[string]func(uint64) []lib.Case{
 	"touch-vs-timeout-scan":          fineTouchWhileScanExpires,
 	"fin-vs-timeout-scan":            fineFinWhileScanExpires,
 	"sub-vs-channel-delete":          fineSubWhileChannelDeleting,
+	"start-during-exit":              fineStartWhileExiting,
 	"touch-vs-empty":                 fineEmptyWhileTouching,
 	"dscan-vs-empty":                 fineEmptyVsDeferredScan,
 	"two-deletes-on-ephemeral-topic": fineTwoDeletesOnEphemeralTopic,
@@ -1034,5 +1061,5 @@ var fineByProfile = map[string][]string{
 	"c13": {"fin-vs-empty", "deliver-vs-empty", "touch-cap", "sub-vs-channel-delete"},
 	"c02": {"deliver-vs-disconnect", "touch-then-scan", "touch-cap", "touch-vs-timeout-scan", "sub-vs-channel-delete"},
 	"c04": {"touch-then-scan", "touch-cap", "touch-vs-timeout-scan", "fin-vs-timeout-scan"},
-	"c05": {"exit-vs-deliver", "exit-vs-req", "exit-vs-timeout-scan", "exit-vs-deferred-scan", "deliver-vs-disconnect", "exit-vs-touch"},
+	"c05": {"exit-vs-deliver", "exit-vs-req", "exit-vs-timeout-scan", "exit-vs-deferred-scan", "deliver-vs-disconnect", "exit-vs-touch", "start-during-exit"},
 }
